@@ -247,6 +247,15 @@ func runC18(w *W) {
 		w.Sig(fmt.Sprintf("cap%d", c))
 	}
 	// output side of the conversions: Do on the pooled buffer, or DoInto with a tape-chosen spare capacity
+	// the converter is reconfigured in the middle of the series (SetOptions): the write flags and the unknown-field
+	// switch change, everything that decides how a document is spelled stays
+	reconfAt := -1
+	opts2 := opts
+	if t.Chance(1, 4, "reconf.use") {
+		reconfAt = t.Intn(len(docs), "reconf.at")
+		opts2.WriteDefaultField, opts2.WriteRequireField, opts2.WriteOptionalField = t.Chance(1, 2, "reconf.wd"), t.Chance(1, 2, "reconf.wr"), t.Chance(1, 2, "reconf.wo")
+		opts2.DisallowUnknownField = t.Chance(1, 2, "reconf.du")
+	}
 	docCaps := make([]int, len(docs))
 	for i := range docCaps {
 		docCaps[i] = -1
@@ -309,7 +318,14 @@ func runC18(w *W) {
 	w.Logf("IDL:\n%s\noptions %+v", sch.IDL, opts)
 	fls := c18Flavours()
 
+	cur := opts
 	for di, d := range docs {
+		if di == reconfAt {
+			w.NextOp(fmt.Sprintf("SetOptions(%+v)", opts2))
+			cv.SetOptions(opts2)
+			cur = opts2
+			w.Count("converter_reconfigured")
+		}
 		w.Logf("doc %d (%s): %q", di, d.negative, clip(d.js, 500))
 		var ref []byte
 		refErr := false
@@ -350,7 +366,7 @@ func runC18(w *W) {
 			w.Logf("   -> err=%v out=%x", refErr, clipb(ref, 300))
 		}
 		if d.negative == "" {
-			if lastMemberNull(d.val) && (opts.WriteDefaultField || opts.WriteRequireField || opts.WriteOptionalField) {
+			if lastMemberNull(d.val) && (cur.WriteDefaultField || cur.WriteRequireField || cur.WriteOptionalField) {
 				// EXCLUDED from the cross-build comparison: the precondition of the open native finding F02
 				// (last member null + unset fields to write + ERR_OOM_BUF at the closing brace leaves a stray
 				// field header - judged under C02 / C16; seen here in thorough run seed 21, world 1160841)
